@@ -39,6 +39,7 @@ type tunCfg struct {
 	Director    int  // epoch-level faults injected
 	StaleAt     int  // >0: after this many acknowledged requests the gateway leaves stale acknowledgements on offer and replaces the connection
 	Busmon      bool // bus monitor tunnel: inbound telegrams are L_Busmon.ind
+	Refuse      int  // odds (permille) of the gateway refusing an in-sequence telegram with an error status
 	Defaults    bool // the timing options are left at zero: the library's defaults apply (R=500ms, T=H=10s)
 	SlowWrite   int  // permille of the client's writes that stall inside the call (counted as slack)
 	SlowMax     time.Duration
@@ -227,6 +228,12 @@ func drawTunCfg(e *Env) tunCfg {
 			c.Director = 1 + e.Choose("cfg.dir", 3)
 		}
 		c.TCP = shape == 1 && e.Choose("cfg.tcp", 2) == 1
+		if c.TCP && e.Choose("cfg.defaults04", 3) == 0 {
+			// the stream rules hold whatever the timing options are - also when they are all left at
+			// zero and the library fills in its defaults
+			c.Defaults = true
+			c.R, c.T, c.H = 500*time.Millisecond, 10*time.Second, 10*time.Second
+		}
 	case "C05":
 		c.Senders = 1 + e.Choose("cfg.senders3", 3)
 		c.SendsEach = 1 + e.Choose("cfg.sends6", 6)
@@ -236,6 +243,10 @@ func drawTunCfg(e *Env) tunCfg {
 		}
 		if shape >= 4 && shape <= 6 {
 			c.WriteErr = []int{0, 50, 200}[e.Choose("cfg.werr05", 3)] // to the gateway a datagram that could not be written is one that was lost
+		}
+		if shape != 9 && e.Choose("cfg.refuse05", 3) == 0 {
+			// a gateway may turn a telegram down (error status in its acknowledgement): that one is not on the bus
+			c.Refuse = []int{50, 150, 400}[e.Choose("cfg.refusep", 3)]
 		}
 		if shape == 9 {
 			c.SendsEach = 300 / c.Senders
@@ -334,10 +345,10 @@ func drawTunCfg(e *Env) tunCfg {
 }
 
 func (c tunCfg) String() string {
-	return fmt.Sprintf("tcp=%v R=%v T=%v H=%v local=%v senders=%dx%d think=%v inbound=%d/%v reader=%s closers=%d early=%v up={drop=%d dup=%d late=%d dmax=%v} down={drop=%d dup=%d late=%d dmax=%v} tlate=%d adv=%d dir=%d foreignonly=%v sticky=%d pct=%d window=%d starve=%d/%v reusechan=%v werr=%d rerr=%v stall=%d/%v stale=%d busmon=%v slowwrite=%d/%v",
+	return fmt.Sprintf("tcp=%v R=%v T=%v H=%v local=%v senders=%dx%d think=%v inbound=%d/%v reader=%s closers=%d early=%v up={drop=%d dup=%d late=%d dmax=%v} down={drop=%d dup=%d late=%d dmax=%v} tlate=%d adv=%d dir=%d foreignonly=%v sticky=%d pct=%d window=%d starve=%d/%v reusechan=%v werr=%d rerr=%v stall=%d/%v stale=%d busmon=%v slowwrite=%d/%v refuse=%d defaults=%v",
 		c.TCP, c.R, c.T, c.H, c.LocalAddr, c.Senders, c.SendsEach, c.Think, c.Inbound, c.InboundGap, c.Reader, c.Closers, c.CloseEarly,
 		c.Up.DropPermille, c.Up.DupPermille, c.Up.LatePermille, c.Up.DelayMax, c.Down.DropPermille, c.Down.DupPermille, c.Down.LatePermille, c.Down.DelayMax,
-		c.TimerLate, c.Adversary, c.Director, c.ForeignOnly, c.Sticky, c.PCT, c.Window, c.Starve, c.StarveMax, c.ReuseChan, c.WriteErr, c.ReadErr, c.Stall, c.StallMax, c.StaleAt, c.Busmon, c.SlowWrite, c.SlowMax)
+		c.TimerLate, c.Adversary, c.Director, c.ForeignOnly, c.Sticky, c.PCT, c.Window, c.Starve, c.StarveMax, c.ReuseChan, c.WriteErr, c.ReadErr, c.Stall, c.StallMax, c.StaleAt, c.Busmon, c.SlowWrite, c.SlowMax, c.Refuse, c.Defaults)
 }
 
 func idMessage(id int) cemi.Message {
@@ -469,7 +480,8 @@ func runTunnel(e *Env) {
 		layer = knxnet.TunnelLayerBusmon
 	}
 	r.gw.Busmon = c.Busmon
-	if (e.Spec.Prop == "C04" || e.Spec.Prop == "C05" || e.Spec.Prop == "C17") && !c.Busmon && e.Choose("cfg.biginfo", 4) == 0 {
+	r.gw.RefusePermille = c.Refuse
+	if (e.Spec.Prop == "C04" || e.Spec.Prop == "C05" || e.Spec.Prop == "C17") && e.Choose("cfg.biginfo", 4) == 0 {
 		lens := map[int]int{}
 		r.gw.InfoLen = func(id int) int {
 			if n, ok := lens[id]; ok {
